@@ -69,6 +69,26 @@ def fanout_program(rng):
                  'id': gen.next_id('s')},
                 {'op': 'wait', 'n': {'k': 'inv', 'a': dict(shared)}, 'id': gen.next_id('s')}]
             roots.insert(rng.randrange(len(roots) + 1), {'name': 'n%d' % index, 'steps': steps})
+    if rng.random() < 0.4:
+        # connectives in which the same condition *objects* occur more than once, next to
+        # activities that wait for those objects one by one
+        date = rng.choice([1, 1.5, 2])
+        pool = [{'k': rng.choice(['ge', 'eq']), 't': date, 'share': 'rep%d' % index}
+                for index in range(rng.randint(2, 4))]
+        how = rng.choice(['or', 'and'])
+        first_half = [dict(spec) for spec in pool]
+        second_half = [dict(spec) for spec in reversed(pool)]
+        repeated = {'k': how, 'a': [{'k': how, 'a': first_half}, {'k': how, 'a': second_half}]}
+        roots.insert(rng.randrange(len(roots) + 1),
+                     {'name': 'rep', 'steps': [{'op': 'wait', 'n': repeated,
+                                                'id': gen.next_id('s')}]})
+        for index, spec in enumerate(pool):
+            roots.insert(rng.randrange(len(roots) + 1),
+                         {'name': 'rep%d' % index, 'steps': [
+                             {'op': 'wait', 'n': {'k': 'delay', 'd': 0.5}, 'id': gen.next_id('s')},
+                             {'op': 'wait', 'n': dict(spec), 'id': gen.next_id('s')},
+                             {'op': 'setflag', 'f': index % 3, 'v': True,
+                              'id': gen.next_id('s')}]})
     driver = []
     for _ in range(rng.randint(2, 8)):
         roll = rng.random()
